@@ -3,7 +3,7 @@ Import ListNotations.
 From BB Require Import BN Brute SpaceFacts TrapFacts PercolateFacts AttractorFacts Diagram Invariants Checks Filter
   Strict PetriNet Control Meta FilterFacts PetriNetFacts TrappistFacts DiagramStruct DiagramSem1 DiagramCache
   DiagramDepth DiagramComplete Termination ControlFacts MetaFacts Candidates StrictFacts MinExpandFacts CandidatesFacts SymbolicTest SymbolicTestFacts Signed ReductionFacts ControlFacts2 Main Blocks BlocksFacts ObsFacts OwnerFacts CandidatesTerm
-  PartialOwner BlockMath BlockComplete ASeeds ASeedsFacts LogChecks SkipRule SkipRuleFacts Names NamesFacts Perm PermFacts SCC SCCFacts SCCStruct ControlFacts3 SCCTerm FilterSym Main2 StrategyFacts ControlFacts4 PyLib PySrc PySrcFacts SkipRuleFacts2."""
+  PartialOwner BlockMath BlockComplete ASeeds ASeedsFacts LogChecks SkipRule SkipRuleFacts Names NamesFacts Perm PermFacts SCC SCCFacts SCCStruct ControlFacts3 SCCTerm FilterSym Main2 StrategyFacts ControlFacts4 PyLib PySrc PySrcFacts SkipRuleFacts2 SCCComplete."""
 
 EX_NET = """
 (* non-vacuity: two bistable switches; x0'=x1, x1'=x0, x2'=x3, x3'=x2 *)
@@ -98,8 +98,10 @@ diagram with every option combination and ANY tape (expand_block_MinFound: indep
 BlockMath.min_trap_in_block / same_child_same_block) and for attractor-seed expansion from any plainly reached diagram
 (expand_aseeds_MinFound).  The source-SCC strategy is modelled (SCC.v, replayed id by id): its components are the closed,
 strongly connected, pairwise disjoint sets of source_sccs_spec, every node it creates is a trap space of the network
-(graft_trap, expand_scc_TrapNodes) and it only adds nodes (expand_scc_grows).  PARTIAL: that it misses no minimal trap
-space is decided by the comparison of minimal_trap_spaces() with Brute.min_traps_b (exact by min_traps_b_spec).""",
+(graft_trap, expand_scc_TrapNodes), it only adds nodes (expand_scc_grows), and from a fresh diagram a run reporting completion
+leaves every node expanded with the expanded leaves being exactly the minimal trap spaces (expand_scc_AllExpanded,
+expand_scc_LeafOK, expand_scc_MinFound) -- although the diagram it builds is not faithful (D15).  So every strategy of the
+statement has a theorem.""",
  theorems=[("bfs_complete", "bfs_complete", None), ("dfs_complete", "dfs_complete", None),
            ("leaves_are_min_traps", "hierarchy_leaves", None), ("min_traps_spec", "min_traps_b_spec", "the oracle for minimal trap spaces is exact"),
            ("min_trap_exists", "min_trap_exists", None), ("min_trap_closed", "min_trap_closed", None),
@@ -124,7 +126,10 @@ space is decided by the comparison of minimal_trap_spaces() with Brute.min_traps
            ("scc_components_disjoint", "source_sccs_disjoint", None),
            ("scc_graft_trap", "graft_trap", "a trap space of the component sub-network grafted onto the attach space is a trap space of the network"),
            ("scc_expansion_trap_nodes", "expand_scc_TrapNodes", None),
-           ("scc_expansion_grows", "expand_scc_grows", None)],
+           ("scc_expansion_grows", "expand_scc_grows", None),
+           ("scc_expansion_complete", "expand_scc_MinFound", "source-SCC strategy from a fresh diagram: no minimal trap space is missed"),
+           ("scc_expansion_leaves_minimal", "expand_scc_LeafOK", "... and none is spurious"),
+           ("scc_expansion_all_expanded", "expand_scc_AllExpanded", "... and no stub is left behind")],
  examples=EX_NET + """
 Example C03_example : length (min_traps_b ex_sw (top_space 4)) = 4.
 Proof. vm_compute. reflexivity. Qed.
